@@ -79,6 +79,19 @@ Theorem C10_propagation : forall xs ss ops k c,
 Proof. exact propagation_lemma. Qed.
 Print Assumptions C10_propagation.
 
+(** ... and so does a Monte Carlo propagation: the samples are the formula at offset * (uncertainty in use) +
+    (value in use) ([mc_lin], Model/Stats.v, tied to MonteCarloEvaluator by injected offsets); for standardised
+    offsets (mean 0) the samples of k * a + c have mean k * value + c and variance k^2 * uncertainty^2 * var(offsets),
+    where value and uncertainty are the statistics selected by the history *)
+Theorem C10_monte_carlo : forall xs ss ops k c e offs,
+  let r := sel_run ops (rmv_new xs ss) in
+  e * e == r_err_sq r -> (2 <= length offs)%nat -> t_mean offs == 0 ->
+  let samples := map (mc_lin k c (r_value r) e) offs in
+  t_mean samples == k * spec_value xs ss ops + c /\
+  t_var samples == k * k * spec_err_sq xs ss ops * t_var offs.
+Proof. exact monte_carlo_lemma. Qed.
+Print Assumptions C10_monte_carlo.
+
 (** the same, spelled out on a history pre ++ o :: post whose tail has no effective selector of the group *)
 Theorem C10_selectors_last_error : forall xs ss pre o post,
   is_err_sel o = true -> effective ss o = true ->
